@@ -393,13 +393,13 @@ def _exec_step(W, st, model, log, stats, bump, seed, progress=False):
     pool_seed = seed % 1000
     st["_u"] = W.U
     if fault and fault.get("auto"):
-        dr = session.dry_run(W.root, do_step, st, W.cfg, pool_seed)
+        dr = session.dry_run(W.root, do_step, st, W.cfg, pool_seed, read_events=True)
         fr = rng_of(fault["rseed"])
         fault = session.place_fault(fr, dr["events"], eligible, kinds=("kill", "kill", "io_error", "io_error", "torn", "torn", "interrupt"))
         st["fault"] = fault
     before = W.observe()
     src_sha = {p.name: sha1_file(p) for p in (W.bin, W.cbin, W.ch) if p.exists()}
-    res = session.run_step(W.root, do_step, st, fault, W.cfg, pool_seed)
+    res = session.run_step(W.root, do_step, st, fault, W.cfg, pool_seed, read_events=True)
     stats["steps"] += len(res["events"])
     if not progress:
         stats.setdefault("_step_events", []).append(res["events"])
